@@ -59,6 +59,31 @@ theorem takeInv_append (x u ex eu : List α) :
     takeInv (x.length, u.length) (⟨x ++ ex, u ++ eu⟩ : Row α) = ⟨x, u⟩ := by
   simp [takeInv]
 
+/-- output widths of every kind, as a function of the input widths only (no law of the opaque functions needed) -/
+theorem rowFn_wx_len (ops : Ops α) (ok : α → Prop) (k : Kind) (r : Row α) :
+    ((rowFn ops ok k).f r).x.length = (kindW k (r.x.length, r.u.length)).1 := by
+  cases k with
+  | poly order io => simp [rowFn, kindW]
+  | bilinear => simp [rowFn, kindW]
+  | const => simp [rowFn, kindW]
+  | rbf id n => simp only [rowFn, kindW]; split <;> simp_all
+  | kernel id n => simp only [rowFn, kindW]; split <;> simp_all
+  | sk id => simp [rowFn, kindW, mapIdxFrom_length]
+  | angle feat => simp [rowFn, kindW, flatMapIdx_angle_length]
+
+theorem rowFn_wu_len (ops : Ops α) (ok : α → Prop) (k : Kind) (r : Row α) :
+    ((rowFn ops ok k).f r).u.length = (kindW k (r.x.length, r.u.length)).2 := by
+  cases k with
+  | poly order io => simp [rowFn, kindW]
+  | bilinear =>
+    simp only [rowFn, kindW, List.length_append]
+    rw [length_flatMap_const r.u _ r.x.length (by intro b _; simp)]
+  | const => simp [rowFn, kindW]
+  | rbf id n => simp only [rowFn, kindW]; split <;> simp_all
+  | kernel id n => simp only [rowFn, kindW]; split <;> simp_all
+  | sk id => simp [rowFn, kindW, mapIdxFrom_length]
+  | angle feat => simp [rowFn, kindW, flatMapIdx_angle_length]
+
 /-- every kind satisfies the abstract laws the tree theorems need -/
 theorem rowFn_laws (ops : Ops α) (ok : α → Prop) (hL : ops.Lawful ok) : EnvLaws (rowFn ops ok) where
   inv := by
@@ -85,26 +110,10 @@ theorem rowFn_laws (ops : Ops α) (ok : α → Prop) (hL : ops.Lawful ok) : EnvL
           angleDec_enc ops ok hL feat x.length u (fun v hv => hd v (by simp [hv]))]
   wx := by
     intro k r
-    cases k with
-    | poly order io => simp [rowFn, kindW]
-    | bilinear => simp [rowFn, kindW]
-    | const => simp [rowFn, kindW]
-    | rbf id n => simp only [rowFn, kindW]; split <;> simp_all
-    | kernel id n => simp only [rowFn, kindW]; split <;> simp_all
-    | sk id => simp [rowFn, kindW, mapIdxFrom_length]
-    | angle feat => simp [rowFn, kindW, flatMapIdx_angle_length]
+    rw [rowFn_wx_len]; cases k <;> rfl
   wu := by
     intro k r
-    cases k with
-    | poly order io => simp [rowFn, kindW]
-    | bilinear =>
-      simp only [rowFn, kindW, List.length_append]
-      rw [length_flatMap_const r.u _ r.x.length (by intro b _; simp)]
-    | const => simp [rowFn, kindW]
-    | rbf id n => simp only [rowFn, kindW]; split <;> simp_all
-    | kernel id n => simp only [rowFn, kindW]; split <;> simp_all
-    | sk id => simp [rowFn, kindW, mapIdxFrom_length]
-    | angle feat => simp [rowFn, kindW, flatMapIdx_angle_length]
+    rw [rowFn_wu_len]; cases k <;> rfl
 
 theorem getD_append_lt (x u u' : List α) (d : α) (i : Nat) (h : i < x.length) :
     (x ++ u).getD i d = (x ++ u').getD i d := by
